@@ -364,7 +364,7 @@ ENGINES = ['sqlite', 'sqlite', 'psql', 'duckdb', 'bigquery']
 def gen_request(r, scratch, idx):
   """A generated program (files on disk under scratch) and its compilable predicates."""
   kind = r.choice(['nonrec', 'nonrec', 'rec', 'rec', 'functor', 'imports', 'imports', 'incant',
-                   'needs_incant', 'bad', 'flags', 'dialect_rec'])
+                   'needs_incant', 'bad', 'flags', 'dialect_rec', 'typed', 'typed'])
   root = None
   flags = None
   bad = False
@@ -386,6 +386,21 @@ def gen_request(r, scratch, idx):
       extra = '@Recursive(%s, %d%s);\n' % (name, r.choice([d, -1]) if 'diamond' in mode else d, mode)
     text = '@Engine("%s");\n' % eng + extra + gen.render(p, engine_line=False)
     preds = gen.idb_names(p)
+  elif kind == 'typed':
+    # typed dialect with several record types whose descriptions are equally long, so that
+    # nothing but an explicit tie-break fixes the order of their CREATE TYPE statements
+    letters = r.sample('abcdefghijklmnopqrstuvwxyz', 8)
+    eng = r.choice(['psql', 'psql', 'duckdb'])
+    f = letters
+    text = ('@Engine("%s");\n' % eng +
+            'D(a: 1, b: "x", c: 2);\nD(a: 2, b: "y", c: 3);\n'
+            'T1(r: {%s: a, %s: b}) :- D(a:, b:);\n' % (f[0], f[1]) +
+            'T2(r: {%s: a, %s: b}) :- D(a:, b:);\n' % (f[2], f[3]) +
+            'T3(k: a, s? List= {%s: c, %s: b}) distinct :- D(a:, b:, c:);\n' % (f[4], f[5]) +
+            'T4(m? ArgMin= b -> a) distinct :- D(a:, b:);\n'
+            'T5(x: r.%s, y: s) :- T1(r:), T3(k: x0, s:), x0 == r.%s;\n' % (f[0], f[0]) +
+            'T6(t: {%s: a, %s: {%s: b}}) :- D(a:, b:);\n' % (f[6], f[7], f[0]))
+    preds = r.sample(['T1', 'T2', 'T3', 'T4', 'T5', 'T6'], 4)
   elif kind == 'functor':
     n = r.randint(1, 4)
     lines = ['@Engine("%s");' % r.choice(ENGINES), 'A(1); A(2); B(3); B(5);',
